@@ -67,7 +67,7 @@ func clauseOf(info *EntryInfo, name string) *Clause {
 
 // investigate searches a failing input for one failed obligation and replays it.
 func (e *Engine) investigate(cfg RunConfig, s *Solver, r *OblResult, cands []Candidate) (confirmed bool, replayFile string, detail string) {
-	replayFile = filepath.Join(cfg.Work, "replay_"+sanitize(r.Name)+".json")
+	replayFile = filepath.Join(cfg.Work, "replay_"+tailName(r.Name)+".json")
 	rec := map[string]interface{}{
 		"obligation": r.Name, "kind": r.Kind, "description": r.Desc, "position": r.Pos,
 		"solver_status": r.Fail.Status, "solver": r.Fail.Solver, "smt_file": r.Fail.File,
